@@ -69,7 +69,7 @@ static std::string aux_class(double f, int from, int to) {
 }
 static std::string nan_class(double f, int from, int to, double tin, double y, double x) {
   if ((from >= 3 || to == 4) && from != to && tin < 1e-300 && f != 0 && (std::isnan(y) || std::isnan(x))) return "[class:denormal-nan] ";
-  if ((from >= 3 || to == 4) && from != to && tin > 1e250 && f != 0 && (std::isnan(y) || std::isnan(x))) return "[class:near-overflow-nan] ";
+  if ((from >= 3 || to == 4) && from != to && tin > 1e100 && f != 0 && (std::isnan(y) || std::isnan(x))) return "[class:near-overflow-nan] ";
   return "";
 }
 
@@ -163,7 +163,8 @@ static Reg r_auxlaws("auxlaws", [](const Args& a) {
     Q ta = (Q)ra.y() / (Q)ra.x(), tb = (Q)rb.y() / (Q)rb.x();
     // allow the round-off of the two evaluations: a few ulp of the value
     if (isnanq(ta) || isnanq(tb)) { if ((nan_class(f, from, to, std::fabs(ya / xa), ra.y(), ra.x()) + nan_class(f, from, to, std::fabs(yb / xb), rb.y(), rb.x())).empty()) bad("aux-nan", nm + ": NaN result for a finite angle, tan(in)=" + scid(ya / xa) + " or " + scid(yb / xb)); }
-    else if (!(ta <= tb * (1 + (Q)(exact ? 64 * (1 + std::fabs(f * (2 - f) / ((1 - f) * (1 - f)))) : 16) * EPS)) && !(std::fabs(ra.y()) < 1e-290 || std::fabs(ra.x()) < 1e-290))
+    else if (isinfq(tb)) {}
+    else if (!(ta <= tb * (1 + (Q)(exact ? 64 * (1 + std::fabs(f * (2 - f) / ((1 - f) * (1 - f))) + ((from == 4) != (to == 4) && std::isfinite(ya / xa) && std::isfinite((double)ta) ? std::fabs(std::asinh(ya / xa) - std::asinh((double)ta)) : 0)) : 16) * EPS)) && !(std::fabs(ra.y()) < 1e-290 || std::fabs(ra.x()) < 1e-290))
       bad("aux-monotone", aux_class(f, from, to) + nm + ": tan(in) " + scid(ya / xa) + " <= " + scid(yb / xb) + " but tan(out) " + scid((double)ta) + " > " + scid((double)tb));
   }
 });
@@ -344,6 +345,8 @@ static LegRef legref(const EllPar& P, double phi) {
     R.cond[k] = 1 + (R.val[k] != 0 ? fabsl(v[k] * s * c / R.val[k]) : 0);
   }
   // Pi, G, H for alpha2 < 0 are represented as F + alpha2 (...) with cancellation: accuracy relative to F (resp. max(F, E) for G)
+  // H = F - alphap2 (...) cancels for every alpha2 (the source warns about it): always relative to F
+  if (P.a2 >= 0 && R.val[5] != 0) R.cond[5] += fabsl(R.val[0] / R.val[5]);
   if (P.a2 < 0) for (int k = 3; k < 6; ++k) if (R.val[k] != 0) R.cond[k] += fabsl((k == 4 ? fmaxl(fabsl(R.val[0]), fabsl(R.val[1])) : fabsl(R.val[0])) / R.val[k]);
   R.ok = true; return R;
 }
@@ -382,7 +385,7 @@ static Reg r_ellinc("ellinc", [](const Args& a) {
     if (P.kp2 > 0 && P.ap2 > 0) for (int k = 0; k < 6; ++k) if (agree(c1[k], c2[k])) {
       // delta is periodic with period pi: evaluate at the reduced angle
       LD rr = R.sg * R.r, t1 = R.sg * R.inc[k] * (PIl / 2) / c2[k], want = t1 - rr;
-      LD cc = 1; if (P.a2 < 0 && k >= 3) cc += (k == 4 ? fmaxl(c2[0], c2[1]) : c2[0]) / c2[k];      // the complete integral in the denominator
+      LD cc = 1; if (P.a2 < 0 && k >= 3) cc += (k == 4 ? fmaxl(c2[0], c2[1]) : c2[0]) / c2[k]; else if (k == 5) cc += c2[0] / c2[5];     // the complete integral in the denominator
       LD tol = 32 * EPS * ((R.cond[k] + cc) * fabsl(t1) + fabsl(rr)) + 4 * DMIN;
       // sin/cos of a large phi are exact for that phi, no extra allowance
       if (!(fabsl((LD)dgot[k] - want) <= tol)) bad("elliptic-periodic-part", third_class(P, k) + std::string("delta") + LEGN[k] + " = " + scid(dgot[k]) + " want " + sci(want) + par);
@@ -445,7 +448,7 @@ static Reg r_ellcomp("ellcomp", [](const Args& a) {
   stat("ell_comp_compared");
   for (int k = 0; k < 6; ++k) {
     if (!agree(c1[k], c2[k])) { stat("oracle_unsure"); continue; }
-    LD cc = 1; if (P.a2 < 0 && k >= 3) cc += (k == 4 ? fmaxl(c2[0], c2[1]) : c2[0]) / c2[k];
+    LD cc = 1; if (P.a2 < 0 && k >= 3) cc += (k == 4 ? fmaxl(c2[0], c2[1]) : c2[0]) / c2[k]; else if (k == 5) cc += c2[0] / c2[5];
     if (!(fabsl((LD)got[k] - c2[k]) <= 32 * EPS * cc * fabsl(c2[k])))
       bad("elliptic-complete-vs-integral", third_class(P, k) + std::string(LEGN[k]) + "() = " + scid(got[k]) + " but the defining integral is " + sci(c2[k]) + ", rel.err " + sci(fabsl(((LD)got[k] - c2[k]) / c2[k])) + par);
   }
@@ -470,7 +473,7 @@ static Reg r_ellinv("ellinv", [](const Args& a) {
   // F(am(x)) = x
   { LegRef R = legref(P, amx);
     if (R.ok) { LD dv = sqrtl(P.delta2(sinl(R.r), R.r > PIl / 4 ? sinl(R.gr) : cosl(R.r)));
-      LD tol = 32 * EPS * (fabsl((LD)x) + fabsl((LD)amx) / dv) * 4 + 4 * DMIN;
+      LD tol = 32 * EPS * (fabsl((LD)x) + fabsl((LD)amx) / dv) * 8 + 4 * DMIN;   // x 8: am is built from ~8 AGM/Landen stages, each worth an ulp of the angle
       if (!(fabsl(R.val[0] - (LD)x) <= tol)) bad("elliptic-am", std::string(k2 < -1 ? "[class:large-negative-k2] " : "") + "F(am(x)) - x = " + sci(R.val[0] - (LD)x) + " (tolerance " + sci(tol) + ") for x = " + scid(x) + " (am = " + scid(amx) + ")" + par); }
     else stat("oracle_unsure"); }
   // sn, cn, dn: on the unit circle, dn^2 = 1 - k2 sn^2, and consistent with am
